@@ -9,7 +9,7 @@ namespace Pcore.Dispatch.Alpha
 
 theorem intFromConvertible_no_fault (v : Val) (r : Nat) (h : inst convertible v = true) :
     intFromConvertible v r ≠ .fault := by
-  cases v <;> simp [convertible, inst, instAny] at h <;> simp [intFromConvertible]
+  cases v <;> simp [convertible, anyTimespan, inst, instAny] at h <;> simp [intFromConvertible]
   split <;> simp
 
 theorem asBool_of_inst (v : Val) (h : inst .bool v = true) : ∃ b, asBool v = some b := by
@@ -156,6 +156,8 @@ theorem array_no_fault (args : List Val) : ctorCall arrayCtor args ≠ .fault :=
           split <;> simp
         | int n => simp [arrayParam, inst, instAny] at hi0
         | float b => simp [arrayParam, inst, instAny] at hi0
+        | binary bs => simp [arrayCtor]
+        | timespan n => simp [arrayParam, inst, instAny] at hi0
         | bool b => simp [arrayParam, inst, instAny] at hi0
         | undef => simp [arrayParam, inst, instAny] at hi0
         | default => simp [arrayParam, inst, instAny] at hi0
@@ -265,6 +267,8 @@ theorem hash_no_fault (args : List Val) : ctorCall hashCtor args ≠ .fault := b
           | value v => cases v <;> simp; exact hashFromArray_no_fault _
         | int n => simp [iterableTy, inst, instAny] at hi0
         | float b => simp [iterableTy, inst, instAny] at hi0
+        | binary bs => simp [iterableTy, inst, instAny] at hi0
+        | timespan n => simp [iterableTy, inst, instAny] at hi0
         | bool b => simp [iterableTy, inst, instAny] at hi0
         | undef => simp [iterableTy, inst, instAny] at hi0
         | default => simp [iterableTy, inst, instAny] at hi0
